@@ -1547,3 +1547,40 @@ def rf97(run):
                       'that fill the struct chosen at run time are removed as dead and the native callee receives stale stack bytes'
                       % sorted(live), line=f.line)
     return 1
+
+
+# ---------------------------------------------------------------------------------------------
+# RF99: hard-register-tied globals are visible at every point where control leaves the function
+# ---------------------------------------------------------------------------------------------
+
+def rf99(run):
+    from rf_proto import dominating_conditions
+    rule = 'RF99'
+    run.rule(rule, 'generator, build_func_cfg: a MIR `global` variable tied to a hard register is read and written by other functions.  '
+                   'The optimiser learns this through explicit instructions: a USE of all tied globals is inserted in front of the return; '
+                   'the same is required in front of every call (and the call must count as a definition), otherwise stores to the global '
+                   'before a call are dead for SSA dead-code elimination and the allocator may spill a caller-saved tied register around it')
+    gen = run.tu('gen')
+    f = gen.func('build_func_cfg')
+    run.functions_analysed.add(('gen', f.name))
+    cfg = f.cfg
+    uses = [x for x in f.walk() if x['k'] == 'CallExpr' and x.get('callee') == 'MIR_new_insn_arr' and F.src(F.strip(F.call_args(x)[1])) == 'MIR_USE']
+    if not uses:
+        raise F.AnalysisBroken('build_func_cfg: creation of the USE of tied globals not found')
+    for_ret = for_call = False
+    for x in uses:
+        conds = ' '.join(c for c, t in dominating_conditions(cfg, cfg.block_of(x), selective=True) if t)
+        if 'MIR_RET' in conds:
+            for_ret = True
+        if 'call_code_p' in conds or 'mem_clobber_insn_p' in conds or 'MIR_CALL' in conds:
+            for_call = True
+    run.ob(rule, ('ret',), for_ret, {'use of tied globals in front of ret': for_ret})
+    if not for_ret:
+        run.violation(rule, f, 'tied globals at ret', 'no USE of the hard-register-tied globals is inserted in front of the return: their last '
+                      'stores are dead code for the optimiser', line=f.line)
+    run.ob(rule, ('call',), for_call, {'use of tied globals in front of calls': for_call})
+    if not for_call:
+        run.violation(rule, f, 'tied globals at calls', 'build_func_cfg inserts the USE of hard-register-tied globals only in front of ret: a '
+                      'call is neither a use nor a definition of them, so at -O2 `acc = 42; f ();` loses the store (callee reads a stale '
+                      'register) and a global tied to a caller-saved register is spilled around the call', line=uses[0]['l'])
+    return 2
